@@ -36,7 +36,7 @@
 EXTENDS Integers, Sequences, FiniteSets, TLC, Json
 
 CONSTANTS MENU,       \* "tiny" | "quick" | "thorough"
-          SHARD, NSHARDS,   \* this run enumerates the bases whose index = SHARD modulo NSHARDS
+          LO, HI,     \* this run enumerates the bases LO..HI of the menu (and the tunnel packets iff LO = 1)
           EMIT,       \* TRUE: print every mutant
           Wrong       \* deliberate errors, to show that the invariants can fail; {} in real runs
 
@@ -382,7 +382,7 @@ Menu == CASE MENU = "tiny"     -> <<E0, S2, N2, ZeroMenu[2]>>
           [] MENU = "thorough" -> FixedMenu(<<1, 2, 3>>) \o VarMenu \o MsgMenu \o MixMenu \o ZeroMenu \o PairMenu \o BigMenu
 Canonical(m) == \A i \in 1..Len(m.fields) : m.fields[i].items # <<>>      \* only ZeroMenu is not
 NBase == Len(Menu)
-Mine == {i \in 1..NBase : i % NSHARDS = SHARD}
+Mine == {i \in 1..NBase : i >= LO /\ i <= HI}
 
 (* tunnel packets: chunk = a framed small Message; one fragment, two fragments of two Messages, the first half of a Message *)
 TunBases == LET c1 == EncFrame(EncMsg(S1))  c2 == EncFrame(EncMsg(S2)) IN
@@ -403,7 +403,7 @@ BaseOf(enc, i) ==     \* [b: bytes, map: word table, t: abstract value or NoVal]
      [] enc = "frame" -> LET b == EncFrame(EncMsg(Menu[i])) IN [b |-> b, map |-> MapFrame(EncMsg(Menu[i])), t |-> Menu[i]]
      [] enc = "tun"   -> [b |-> TunBases[i].b, map |-> TunBases[i].map, t |-> NoVal]
      [] enc = "mtun"  -> [b |-> MiniBases[i].b, map |-> MiniBases[i].map, t |-> NoVal]
-BaseIdx(enc) == CASE enc = "tun" -> {i \in 1..Len(TunBases) : SHARD = 0} [] enc = "mtun" -> {i \in 1..Len(MiniBases) : SHARD = 0}
+BaseIdx(enc) == CASE enc = "tun" -> {i \in 1..Len(TunBases) : LO = 1} [] enc = "mtun" -> {i \in 1..Len(MiniBases) : LO = 1}
                   [] enc = "tmpl" -> {i \in Mine : Canonical(Menu[i])} [] OTHER -> Mine
 
 Judge(enc, i, b) ==
